@@ -80,6 +80,34 @@ static std::string step(const std::vector<std::string>& w) {
     if (objs[nid].sk) return observe(*objs[nid].sk);
     return observe(objs[nid].un->get_result());
   }
+  if (op == "ser") {
+    cpc_sketch& s = sk_at(w[1]);
+    auto b = s.serialize();
+    // the stream overload must produce the same bytes
+    std::ostringstream os(std::ios::binary); s.serialize(os); std::string ss = os.str();
+    if (ss.size() != b.size() || memcmp(ss.data(), b.data(), b.size()) != 0) return "B stream-and-bytes-differ";
+    return "B " + vh::hex_of_bytes(b.data(), b.size());
+  }
+  if (op == "rt") {   // rt <sketch> <new id>: serialize, deserialize, serialize again
+    Obj& o = objs.at(atoi(w[1].c_str()));
+    if (!o.sk) throw std::runtime_error("not a sketch");
+    auto b = o.sk->serialize();
+    Obj n; n.seed = o.seed;
+    {
+      // exact-size heap copy so that ASan sees any over-read
+      std::unique_ptr<uint8_t[]> copy(new uint8_t[b.size()]); memcpy(copy.get(), b.data(), b.size());
+      n.sk.reset(new cpc_sketch(cpc_sketch::deserialize(copy.get(), b.size(), o.seed)));
+    }
+    std::istringstream is(std::string((const char*)b.data(), b.size()), std::ios::binary);
+    cpc_sketch viaStream = cpc_sketch::deserialize(is, o.seed);
+    auto b2 = n.sk->serialize();
+    auto b3 = viaStream.serialize();
+    bool same = b2.size() == b.size() && memcmp(b2.data(), b.data(), b.size()) == 0
+             && b3.size() == b.size() && memcmp(b3.data(), b.data(), b.size()) == 0;
+    int nid = atoi(w[2].c_str());
+    objs[nid] = std::move(n);
+    return observe(*objs[nid].sk) + " " + (same ? "1" : "0") + " " + std::to_string(b.size());
+  }
   if (op == "unew") {
     int id = atoi(w[1].c_str());
     uint64_t seed = strtoull(w[3].c_str(), nullptr, 10);
